@@ -8,7 +8,9 @@ from vt import profile_util as pu
 LONG = '"Mozilla/5.0 (Windows NT 10.0; Win64; x64) AppleWebKit/537.36 (KHTML, like Gecko) Chrome/120.0.0.0 Safari/537.36 Edg/120.0.0.0 trailing words here"'
 NASTY = [LONG, '"a b"', '"a  b"', '"a\tb"', r'"\\\\"', r'"dir\\\\\\"', r'"a\\\"b\\\\"', '"a\\"b"', '"x;y{z}#w"', '"\\\\"', '"line\\nbreak"', '"\\x41\\u0042"', '"it\'s"', '""', '"tab\\t"', '"/a /b,/c"', '"%windir%\\\\sys"',
          # code points that text tooling likes to treat specially (byte order mark, no-break / zero-width space, line separators)
-         '"\ufeffx"', '"a\ufeffb\ufeff"', '"nbsp\u00a0here"', '"zero\u200bwidth"', '"ls\u2028ps\u2029"', '"nel\u0085"', '"\U0001F600"', '"a\r\nb"', '"\r"']
+         '"\ufeffx"', '"a\ufeffb\ufeff"', '"nbsp\u00a0here"', '"zero\u200bwidth"', '"ls\u2028ps\u2029"', '"nel\u0085"', '"\U0001F600"', '"a\r\nb"', '"\r"',
+         # literals with raw line breaks that look like the layout of a profile (a brace and an empty line, statement ends, comments, indentation)
+         '"function f() {\n\n  return 1;\n}\n"', '"a;\n\n  b;\n"', '"# not a comment\n"', '"}\n\n{"', '"\n\n\n"', '"  \n\t\n  "', '"set uri \\"/x\\";\n"', '"{\n"', '" {"', '"x\n}"']
 
 
 def model_cfg(q):
@@ -93,6 +95,11 @@ def run(ctx):
     # arbitrary literals in place of the generator's "vN"
     for s in rng.sample(chosen, min(len(chosen), 150 if q else 1500)):
         jobs.append(tuple(rng.choice(NASTY) if (t.startswith('"v') and t != '"default"') else t for t in s["toks"]))
+    # ... and every such literal at least once, in every literal position of a few sentences
+    with_lit = [s_ for s_ in chosen if any(t.startswith('"v') and t != '"default"' for t in s_["toks"])]
+    for n_, lit in enumerate(NASTY):
+        for s_ in (with_lit[n_ % len(with_lit)], with_lit[(7 * n_ + 3) % len(with_lit)]) if with_lit else ():
+            jobs.append(tuple(lit if (t.startswith('"v') and t != '"default"') else t for t in s_["toks"]))
     # state carried between parses: the same profile with literals that differ only in inner whitespace, parsed one after the other
     pair_jobs = []
     for s in rng.sample(chosen, min(len(chosen), 40 if q else 400)):
